@@ -28,6 +28,16 @@
 //!     Ok the committed (and the staged) bytes must be those of a healthy staging run. Histories that never flush the
 //!     destination are counted and not judged. On the unchanged tree every judged writer returns Err(Interrupted).
 //!
+//! (g) end sequences (module `end`): single- and multithreaded BGZF writers and every writer whose Drop finishes a
+//!     BGZF stream (bam, bcf, sam.gz, vcf.gz, csi, tabix) are driven through try_finish / flush in the middle, twice,
+//!     on an empty writer, followed by small or block-filling writes (exactly limit / limit+1 bytes), then DROPPED, on
+//!     healthy and short-write sinks: the destination must inflate to everything written and end with the EOF marker;
+//! (h) block-boundary sweep (module `sweep`): a write into a BGZF writer can only fail when it makes the staging
+//!     buffer reach the block limit (measured, `end::bgzf_limit`), so synthetic CSI / tabix indexes (boundary on every
+//!     byte of the final 64 bytes) and BAM / BCF / SAM.gz / VCF.gz files (boundary on 64 offsets around the end of the
+//!     header and the first record) are padded so that every small field write triggers the block write once; every
+//!     sink call of these histories is failed as in (b).
+//!
 //! The same checks run on histories that reach the writers through their other public entry points (module
 //! `alt`): the `sam::alignment::io::Write` trait alone (`finish(&header)` as the finishing call), the
 //! `noodles_util` alignment / variant writers, and the `io::writer::Builder`s that put a `BufWriter` or a boxed BGZF
@@ -115,8 +125,16 @@ struct Hist {
     n_half: usize,
     /// every k is failed with EVERY error kind (sticky and transient) instead of two rotating kinds
     all_kinds: bool,
-    /// block-boundary sweep item: the BGZF block boundary lies this many bytes before the end of the index
-    sweep: Option<usize>,
+    /// block-boundary sweep item
+    sweep: Option<Sweep>,
+}
+
+#[derive(Clone, Copy, Debug)]
+enum Sweep {
+    /// index writers: the BGZF block boundary lies this many bytes before the end of the serialized index
+    Tail(usize),
+    /// record writers: the boundary lies at inflated offset header_end - sweep::BEFORE + j
+    HeaderEnd(usize),
 }
 
 impl Hist {
@@ -1235,10 +1253,14 @@ fn gen_world(ctx: &Ctx) -> World {
     // block-boundary sweep items (synthetic CSI / tabix indexes), always included, Std drive only
     let bgzf_limit = end::bgzf_limit();
     let first_sweep_item = items.len();
-    let mut sweep_d: Vec<usize> = Vec::new();
+    let mut sweep_d: Vec<Sweep> = Vec::new();
     for (it, d) in sweep::items(bgzf_limit) {
         items.push(it);
-        sweep_d.push(d);
+        sweep_d.push(Sweep::Tail(d));
+    }
+    for (it, j) in sweep::record_items(bgzf_limit) {
+        items.push(it);
+        sweep_d.push(Sweep::HeaderEnd(j));
     }
 
     let max_n = ctx.budget("max_calls", 4000, 80000) as usize;
@@ -1381,7 +1403,7 @@ fn case_json(w: &World, c: &Case) -> Value {
         Part::Staging => ("staging-destination", 0, 0),
         Part::EndSeq => ("end-sequences-then-drop", 0, 0),
     };
-    json!({"writer": h.writer_name(&w.items), "item": it.name, "item_len": it.bytes.len(), "drive": h.drive.name(), "part": part, "lo": lo, "hi": hi, "n": h.n, "all_error_kinds": h.all_kinds, "block_boundary_bytes_before_end": h.sweep})
+    json!({"writer": h.writer_name(&w.items), "item": it.name, "item_len": it.bytes.len(), "drive": h.drive.name(), "part": part, "lo": lo, "hi": hi, "n": h.n, "all_error_kinds": h.all_kinds, "block_boundary_sweep": h.sweep.map(|s| format!("{s:?}"))})
 }
 
 fn run_case(ctx: &Ctx, w: &World, c: &Case) -> CaseOut {
@@ -1436,17 +1458,27 @@ fn run_case(ctx: &Ctx, w: &World, c: &Case) -> CaseOut {
                 o.count("fault_positions_on_half_accepting_sink_total", h.n_half as u64);
             }
             o.count("flush_calls_in_healthy_histories", healthy.calls.iter().filter(|c| c.flush).count() as u64);
-            if let Some(d) = h.sweep {
-                // the layout the sweep relies on: first block = the measured limit, d bytes follow
-                let ok = obgzf::walk(&healthy.bytes).ok().map(|wk| {
-                    let data: Vec<usize> = wk.members.iter().filter(|m| !m.is_eof_marker).map(|m| m.data.len()).collect();
-                    data.first() == Some(&w.bgzf_limit) && data.iter().sum::<usize>() == w.bgzf_limit + d
-                });
-                if ok == Some(true) {
-                    o.count(&format!("block_boundary_sweep[{writer}|{d:02}-bytes-before-end]"), 1);
+            if let Some(sw) = h.sweep {
+                // the layout the sweep relies on: first block = the measured limit, boundary where it was aimed
+                let (ok, label) = match obgzf::walk(&healthy.bytes) {
+                    Err(_) => (false, String::new()),
+                    Ok(wk) => {
+                        let data: Vec<usize> = wk.members.iter().filter(|m| !m.is_eof_marker).map(|m| m.data.len()).collect();
+                        let first_is_limit = data.first() == Some(&w.bgzf_limit);
+                        match sw {
+                            Sweep::Tail(d) => (first_is_limit && data.iter().sum::<usize>() == w.bgzf_limit + d, format!("{d:02}-bytes-before-end")),
+                            Sweep::HeaderEnd(j) => {
+                                let he = sweep::inflated_header_end(item.kind, &wk.concat());
+                                (first_is_limit && he + j == w.bgzf_limit + sweep::BEFORE, format!("header-end{:+03}", j as isize - sweep::BEFORE as isize))
+                            }
+                        }
+                    }
+                };
+                if ok {
+                    o.count(&format!("block_boundary_sweep[{writer}|{label}]"), 1);
                     o.count("block_boundary_sweep_histories", 1);
                 } else {
-                    o.inconclusive.push(format!("{writer} sweep item {}: the block boundary is not {d} bytes before the end of the index", item.name));
+                    o.inconclusive.push(format!("{writer} sweep item {}: the block boundary is not where it was aimed ({sw:?})", item.name));
                 }
             }
             run_base(ctx, &hc, &mut o, &mut v);
@@ -1589,6 +1621,13 @@ fn main() {
             for wn in ["csi", "tbi"] {
                 for d in 0..=sweep::TAIL {
                     rep.floor(&format!("block_boundary_sweep[{wn}|{d:02}-bytes-before-end]"), get(&rep, &format!("block_boundary_sweep[{wn}|{d:02}-bytes-before-end]")), 1);
+                }
+                rep.floor(&format!("block_boundary_sweep_faults_in_the_triggered_block_write[{wn}]"), get(&rep, &format!("block_boundary_sweep_faults_in_the_triggered_block_write[{wn}]")), 1000);
+            }
+            for wn in ["bam", "bcf", "samgz", "vcfgz"] {
+                for j in 0..sweep::SPAN {
+                    let key = format!("block_boundary_sweep[{wn}|header-end{:+03}]", j as isize - sweep::BEFORE as isize);
+                    rep.floor(&key, get(&rep, &key), 1);
                 }
                 rep.floor(&format!("block_boundary_sweep_faults_in_the_triggered_block_write[{wn}]"), get(&rep, &format!("block_boundary_sweep_faults_in_the_triggered_block_write[{wn}]")), 1000);
             }
